@@ -629,6 +629,72 @@ class Check:
 # ----------------------------------------------------------------------
 # worker pool: each chunk = (chunk index, list of case indices)
 # ----------------------------------------------------------------------
+# ----------------------------------------------------------------------
+# monitor canaries
+# ----------------------------------------------------------------------
+CANARY_EXPECT = {
+    # canary -> predicate on the CaseResult
+    "leak": lambda r: r.leaks > 0 and any(x["tool"] == "lsan"
+                                           for x in r.reports),
+    "overflow": lambda r: any(x["key"].startswith(
+        "asan:heap-buffer-overflow:vnaconv_stozn") for x in r.reports),
+    "overflow_b": lambda r: any(x["key"].startswith(
+        "asan:heap-buffer-overflow") for x in r.reports),
+    "uaf": lambda r: any(x["key"].startswith(
+        "asan:heap-use-after-free:vnaconv_ztosn") for x in r.reports),
+    "uaf_b": lambda r: any(x["key"].startswith("asan:heap-use-after-free")
+                           for x in r.reports),
+    "ubsan": lambda r: any(x["tool"] == "ubsan" for x in r.reports),
+    "hang": lambda r: r.status == "timeout",
+    "abort": lambda r: r.status == "crash",
+}
+
+
+def monitor_canaries(binaries, workroot, memcheck_bin=None):
+    """Runs the deliberately bad `canary` ops of the driver in every build a
+    check is about to use and returns a list of complaints: a sanitizer that
+    is compiled out, a leak query that never runs, a watchdog that never
+    fires or a report the parser no longer recognises would otherwise look
+    exactly like a clean run.  binaries: {variant: path}.  gcc 12's ASan
+    does not instrument loads of _Complex values, so the complex over-read
+    and the complex read of freed memory inside libvna ("overflow", "uaf")
+    are required of the clang builds only."""
+    errs = []
+    seen = {}
+    for variant, binary in sorted(binaries.items()):
+        names = ["leak", "overflow_b", "uaf_b", "ubsan", "hang", "abort"]
+        if variant != "gasan":
+            names[1:1] = ["overflow", "uaf"]
+        cases = [("canary_" + w, "canary %s 1\n" % w) for w in names]
+        res = run_cases(binary, cases, os.path.join(
+            workroot, "canary-" + variant), timeout=120, watchdog=2,
+            confirm_hangs=False)
+        for w in names:
+            ok = bool(CANARY_EXPECT[w](res["canary_" + w]))
+            seen["%s:%s" % (variant, w)] = ok
+            if not ok:
+                r = res["canary_" + w]
+                errs.append("monitor canary '%s' was not noticed in the %s "
+                            "build (status %s, leaks %s, reports %s)" % (
+                                w, variant, r.status, r.leaks,
+                                [x["key"] for x in r.reports][:3]))
+    if memcheck_bin:
+        cases = [("canary_uninit", "canary uninit\n"),
+                 ("canary_overflow", "canary overflow\n")]
+        res = run_cases(memcheck_bin, cases, os.path.join(
+            workroot, "canary-memcheck"), timeout=300, watchdog=120,
+            valgrind=True, confirm_hangs=False)
+        for cid, want in (("canary_uninit", "uninitialised"),
+                          ("canary_overflow", "Invalid_read")):
+            ok = any(x["tool"] == "memcheck" and want in x["key"]
+                     for x in res[cid].reports)
+            seen["memcheck:" + cid[7:]] = ok
+            if not ok:
+                errs.append("monitor canary '%s' was not noticed by valgrind "
+                            "memcheck" % cid[7:])
+    return errs, seen
+
+
 def _worker(args):
     fn, chunk_id, payload = args
     try:
